@@ -273,6 +273,10 @@ fn run(case: &Value) -> Value {
                 None => json!({ "ok": null }),
             }
         }
+        "unit_display" => {
+            let c = match compound_from(&case["unit"]) { Ok(a) => a, Err(e) => return json!({ "err": format!("bad case: {}", e) }) };
+            json!({ "ok": { "text": c.to_string(), "plural": c.display(true).to_string() } })
+        }
         "unit_seq" => {
             // what eval::unit does with one WORD: repeat the generated parser on the remainder
             let mut rest = case["word"].as_str().unwrap_or("");
